@@ -406,7 +406,7 @@ def tie_b(prop, cases, seed, tier, priority):
                 q['tag'] = 'zeroize' if prop == 'C18' else 'drop'
             problems += pr
     # the glue around the macro (macro paths, cfg, macro_rules!, `Self`, defaults): fixed crate, judged against the standard derive
-    if prop in ('C02', 'C03', 'C04', 'C10'):
+    if prop in ('C02', 'C03', 'C04', 'C09', 'C10'):
         for c in cfgs:
             st, pr = tieb.run_extras(c)
             out[c]['glue_items'] = st['items']
